@@ -15,7 +15,9 @@ If one returns the oracle reports it again under its own signature:
   7d0d905  huawei:single:whole-key-undo-with-unchanged-lines
   7afbb71  huawei:pool:list-keyed-by-first-id:common-vlan-removed-transiently
 """
+import ast
 import itertools
+import os
 import random
 
 ID = "C11"
@@ -81,6 +83,46 @@ C_SCEN = {
 
 _HW = {}
 _SEQ = {}     # pipeline cases: the real order of the patch rows (impl) is echoed by model(); order is C08's subject
+
+
+# ------------------------------------------------------------------ translation: the member allow-lists of the vendors
+def _startswith_tuple(path, fname):
+    """the string constants of `cmd_line.startswith((...))` in function `fname` of the module at `path`"""
+    tree = ast.parse(open(path, encoding="utf-8").read())
+    for n in ast.walk(tree):
+        if isinstance(n, ast.FunctionDef) and n.name == fname:
+            for c in ast.walk(n):
+                if isinstance(c, ast.Call) and isinstance(c.func, ast.Attribute) and c.func.attr == "startswith" and c.args:
+                    a = c.args[0]
+                    elts = a.elts if isinstance(a, (ast.Tuple, ast.List)) else [a]
+                    return [e.value for e in elts if isinstance(e, ast.Constant) and isinstance(e.value, str)]
+    raise ValueError("%s: no startswith((...)) in %s" % (path, fname))
+
+
+def _lstr(x):
+    return '"' + x.replace("\\", "\\\\").replace('"', '\\"') + '"'
+
+
+def pregen():
+    """Gen/IfaceLists.lean: which commands cisco/iface.py and nexus/iface.py keep on a port-channel member and which
+    ones NX-OS hides from the old side when a port leaves its port-channel (read off the Python ASTs of $ANNET_REPO)"""
+    from harness.core.paths import LEAN, REPO
+    lists = [("ciscoAllowedOnChannel", "annet/rulebook/cisco/iface.py", "_is_allowed_on_channel"),
+             ("nexusAllowedOnChannel", "annet/rulebook/nexus/iface.py", "_is_allowed_on_channel"),
+             ("nexusHiddenFromOldOnLeave", "annet/rulebook/nexus/iface.py", "_is_allowed_on_old_lag_memeber")]
+    lines = ["-- generated by harness/props/c11.py (pregen) from the Python ASTs of the annet tree; do not edit", "",
+             "namespace Annet.Gen.IfaceLists", ""]
+    for name, rel, fn in lists:
+        vals = _startswith_tuple(os.path.join(REPO, rel), fn)
+        lines += ["/-- `%s` of %s -/" % (fn, rel), "def %s : List String := [%s]" % (name, ", ".join(_lstr(v) for v in vals)), ""]
+    lines += ["end Annet.Gen.IfaceLists", ""]
+    text = "\n".join(lines)
+    path = os.path.join(LEAN, "AnnetModel", "Gen", "IfaceLists.lean")
+    if not os.path.exists(path) or open(path, encoding="utf-8").read() != text:
+        with open(path, "w", encoding="utf-8") as f:
+            f.write(text)
+        return "Gen/IfaceLists.lean rewritten"
+    return "Gen/IfaceLists.lean unchanged"
 
 
 def _ckey(case):
